@@ -9,7 +9,7 @@
 EXTENDS Features, TLC, Json
 CONSTANTS MaxFields, MaxWeight,        \* exploration bounds
           MinFields, MinWeight,        \* export only file values at least this large (simulation: the dense ones)
-          SynSet, ScopeSet,            \* subsets of Syntaxes / Scopes to explore
+          SynSet, ScopeSet, TypeSet,   \* subsets of Syntaxes / Scopes / Types to explore
           MaxBroken                    \* 0: only Valid file values; 1: also those breaking exactly one resolved-feature rule
 VARIABLE F
 vars == <<F>>
@@ -17,7 +17,7 @@ vars == <<F>>
 Empty(syn) == [syntax |-> syn, fov |-> NoOv, eov |-> NoOv, ezero |-> TRUE, neov |-> NoOv, nezero |-> TRUE,
                mov |-> NoOv, nov |-> NoOv, fields |-> <<>>]
 
-BaseSpecs == [type : Types, rep : BOOLEAN, mapkey : {"", "string", "int32"}, lab : {"none", "optional", "required"},
+BaseSpecs == [type : TypeSet, rep : BOOLEAN, mapkey : {"", "string", "int32"}, lab : {"none", "optional", "required"},
               where : {"plain", "oneof", "ext"}, scope : ScopeSet, tgt : {"", "T", "G"}, lname : BOOLEAN,
               packed : {"unset"}, dflt : {FALSE}, ov : {NoOv}]
 BaseShapes(syn) == {s \in BaseSpecs : ShapeOK(syn, s)}
